@@ -456,7 +456,11 @@ impl<T: Config> P2PSession<T> {
             }
         }
 
-        // handle all events locally
+        // handle all events locally, in an order that does not depend on the hash order of the endpoint maps
+        // (the events of one endpoint keep their order)
+        events
+            .make_contiguous()
+            .sort_by_key(|(_, handles, _)| handles.first().copied());
         for (event, handles, addr) in events {
             self.handle_event(event, handles, addr);
         }
@@ -1194,10 +1198,20 @@ impl<T: Config> P2PSession<T> {
     fn compare_local_checksums_against_peers(&mut self) {
         match self.desync_detection {
             DesyncDetection::On { .. } => {
-                for remote in self.player_reg.remotes.values_mut() {
+                // endpoints by handle and frames in ascending order, so that the events raised here do not depend
+                // on the hash order of the maps involved
+                let mut remotes: Vec<_> = self.player_reg.remotes.values_mut().collect();
+                remotes.sort_by_key(|remote| remote.handles().first().copied());
+                for remote in remotes {
                     let mut checked_frames = Vec::new();
+                    let mut pending: Vec<_> = remote
+                        .pending_checksums
+                        .iter()
+                        .map(|(&frame, &checksum)| (frame, checksum))
+                        .collect();
+                    pending.sort_unstable_by_key(|(frame, _)| *frame);
 
-                    for (&remote_frame, &remote_checksum) in &remote.pending_checksums {
+                    for (remote_frame, remote_checksum) in pending {
                         if remote_frame >= self.sync_layer.last_confirmed_frame() {
                             // we're still waiting for inputs for this frame
                             continue;
